@@ -5,6 +5,7 @@ CONSTANT WalkerDomains <- TWalker
 CONSTANT LemmaDomains <- None
 CONSTANT Q = 5
 INVARIANT FwLoopInv
+INVARIANT FwProgressInv
 INVARIANT FwFinalInv
 INVARIANT FwCountsBehavioursInv
 INVARIANT WalkerCountedInv
